@@ -289,8 +289,8 @@ func opC07Hist(fields []string) string {
 	ops := c07ParseOps(fields[1])
 	path, cleanup := c07Scratch(content)
 	defer cleanup()
-	fileObs := c07RunHist(func() *files.Reader { return files.ReaderFromFile(path) }, ops, 4*time.Second)
-	strObs := c07RunHist(func() *files.Reader { return files.ReaderFromString(string(content)) }, ops, 4*time.Second)
+	fileObs := c07RunHist(func() *files.Reader { return files.ReaderFromFile(path) }, ops, 4*time.Second*innerDeadlineFactor())
+	strObs := c07RunHist(func() *files.Reader { return files.ReaderFromString(string(content)) }, ops, 4*time.Second*innerDeadlineFactor())
 	c07NoteHang(fileObs)
 	c07NoteHang(strObs)
 	return "FILE " + fileObs + "\tSTR " + strObs
@@ -320,7 +320,7 @@ func c07DeadlineN(f func() string, n int) string {
 	select {
 	case r := <-done:
 		return r
-	case <-time.After(9 * time.Second):
+	case <-time.After(9 * time.Second * innerDeadlineFactor()):
 		return "HANG"
 	}
 }
@@ -707,4 +707,14 @@ func c07Tier(tier string, quick, thorough int) int {
 		return thorough
 	}
 	return quick
+}
+
+// inner wall-clock deadlines are short for the pooled run (a tree where the reader spins must not take hours) and
+// five times as long when `finish` re-runs a case with little company (VERIF_RERUN=1), so that a loaded machine
+// cannot turn a slow call into a HANG verdict
+func innerDeadlineFactor() time.Duration {
+	if os.Getenv("VERIF_RERUN") == "1" {
+		return 5
+	}
+	return 1
 }
